@@ -398,6 +398,8 @@ TEMPLATES = [
      [("pipeline element", "map")]),
     ("pipeline:\n  - __type__: %(c)s.DummyPool\n__config_test:\n  <<: {T0} {{a: 1}}\n  b: 2\n",
      [("value of a merge key", "map")]),
+    ("pipeline:\n  - __type__: %(c)s.DummyPool\nzzz_extra: {T0}\n  a: 1\n.hidden: {T1} [1]\n_private: {T2} x\n",
+     [("an unclaimed extra section", "map"), ("an extra section with a dotted name", "seq"), ("an extra section with an underscore name", "str")]),
 ]
 BENIGN_TAG = {"str": "!!str", "seq": "!!seq", "map": "!!map"}
 
@@ -529,7 +531,7 @@ def run(tier, seed):
                                    "inputs": {"tag": wit, "kind": kd}, "params": {"loader": cls.__name__},
                                    "property": PROPERTY, "module": MOD})
     funnel_docs = 0
-    for cls in dict.fromkeys(classes):
+    for cls in list(dict.fromkeys(classes)) or [config_mod.COBalDLoader]:  # positions are checked whatever was captured
         problems, funnel_docs = funnel_check(cls)
         confirmed = {}
         for pr in problems:
